@@ -167,6 +167,7 @@ theorem pres_implement_none (k : MKey) : Pres (Inv mk c₀) (implement k none) :
 theorem Inv.setFeatsFlag {s : Ctx} (k : MKey) (arg : FeatArg) (h : Inv (some k) c₀ s) {m : Mod}
     (hf : s.find k = some m) (hi : m.implemented = true) : Inv (some k) c₀ (setFeatsFlag k arg s) := by
   unfold LyModel.Ctx.setFeatsFlag
+  apply Inv.tick
   apply Inv.upd k _ h
   · intro m
     split
@@ -275,6 +276,14 @@ theorem pres_compileChecked (k : MKey) : Pres (Inv mk c₀) (compileChecked k) :
     · exact (pres_bind (pres_modS fun _ h => h.tick 1) (fun _ => pres_failS _)).at s
     · exact (pres_compileOne k).at s
 
+theorem pres_compileIfNot (st : Bool × List MKey) (k : MKey) : Pres (Inv mk c₀) (compileIfNot st k) := by
+  unfold compileIfNot
+  apply pres_getBind
+  intro s
+  split
+  · exact (pres_bind (pres_compileChecked _) (fun _ => pres_pure _)).at s
+  · exact presAt_pure _ _
+
 theorem pres_unresLoop : ∀ fuel work done, Pres (Inv mk c₀) (unresLoop fuel work done) := by
   intro fuel
   induction fuel with
@@ -312,10 +321,11 @@ theorem pres_unresLoop : ∀ fuel work done, Pres (Inv mk c₀) (unresLoop fuel 
                     · exact pres_pure _
                   · split
                     · exact pres_pure _
-                    · apply pres_getBind
+                    · refine pres_bind (pres_compileIfNot _ _) (fun st1 => ?_)
+                      apply pres_getBind
                       intro s'
                       split
-                      · exact (pres_bind (pres_compileChecked _) (fun _ => pres_pure _)).at s'
+                      · exact (pres_foldlS (fun st k => pres_compileIfNot st k) _).at s'
                       · exact presAt_pure _ _
       · obtain ⟨rec, extra⟩ := r
         dsimp only
